@@ -129,3 +129,21 @@ set_name_and_type = Contract(
     canaries=["result[0] == ''", "result[1]['typ'] == 'int'"],
 )
 CONTRACTS.append(set_name_and_type)
+
+
+# ------------------------------------------------------------------------------------------- _set_param_values (ReST :type / :param lines)
+set_param_values = Contract(
+    "doctrans.docstring_parsers:_set_param_values",
+    properties=["C01", "C03"],
+    cases=[Case("type-line", {"input_str": "str", "val": "str"}, assume=["input_str.startswith(':type')"]),
+           Case("other-line", {"input_str": "str", "val": "str"}, assume=["not input_str.startswith(':type')"])],
+    ensures=[
+        Clause("SPV-doc", "result == ('doc', val)", when=["other-line"], note="prose is taken as it stands"),
+        Clause("SPV-typ-key", "result[0] == 'typ'", when=["type-line"]),
+        Clause("SPV-typ-nobackticks", "('```' in result[1]) == False", when=["type-line"], note="the back-tick wrapper of a type is representation, not content"),
+        Clause("SPV-typ-plain", "('```' in val) or val.startswith('**') or result[1] == val", when=["type-line"], note="a type written without back-ticks is taken verbatim"),
+        Clause("SPV-typ-kwargs", "not val.startswith('**') or ('```' in val) or result[1] == 'dict'", when=["type-line"]),
+    ],
+    canaries=["result[0] == 'doc'", "result[1] == val"],
+)
+CONTRACTS.append(set_param_values)
